@@ -421,18 +421,23 @@ func runC17(w *World, r *Report) {
 					return true
 				}
 				if h := samePkgHelper(rt, c); h != nil {
-					wr := false
-					for _, hf := range WithAnon(h) {
-						instrsOf(hf, func(y ssa.Instruction) {
-							if hc, ok := y.(ssa.CallInstruction); ok {
-								switch memCall(hc) {
-								case "Set", "Delete", "Append":
-									wr = true
-								}
+					// a helper counts as a write when no way through it avoids writing (a helper that writes once per
+					// missing hash writes nothing when nothing is missing)
+					avoid := false
+					walkFrom(nil, h.Blocks[0], nil, func(y ssa.Instruction) bool {
+						if hc, ok := y.(ssa.CallInstruction); ok {
+							switch memCall(hc) {
+							case "Set", "Delete", "Append":
+								return true
 							}
-						})
-					}
-					if wr {
+						}
+						if _, isRet := y.(*ssa.Return); isRet {
+							avoid = true
+							return true
+						}
+						return false
+					})
+					if !avoid {
 						return true
 					}
 				}
